@@ -9,6 +9,9 @@ force-bias / adaptive force-bias steps (delta 0.01-0.3, T 10-5000 K), under acce
 reject-all and mixed schedules.  A contract on the real `FixRot.adjust_momenta` checks
 zero total angular momentum and unchanged linear momentum on random non-collinear
 geometries, masses and momenta.
+A third of the force-bias simulations get displacement masses of their own through
+update_masses() (uniform, per atom, per coordinate); in another sixth the atoms' masses
+change after construction.
 """
 from __future__ import annotations
 
